@@ -105,7 +105,11 @@ func attribute[T any](s *space[T], c codecT[T], idx []int, stage string) string 
 var attrCache sync.Map
 
 func runRoundTrips[T any](t *testing.T, s *space[T], codecs []codecT[T], full bool) {
-	sec := R.Sec("roundtrip/" + s.typ)
+	runRoundTripsIn(t, "roundtrip/"+s.typ, s, codecs, full)
+}
+
+func runRoundTripsIn[T any](t *testing.T, secName string, s *space[T], codecs []codecT[T], full bool) {
+	sec := R.Sec(secName)
 	n := s.count(full)
 	sec.Bounds["field_alphabet_sizes"] = s.bounds()
 	sec.Bounds["full_product"] = s.fullSize()
@@ -116,7 +120,7 @@ func runRoundTrips[T any](t *testing.T, s *space[T], codecs []codecT[T], full bo
 		sec.Bounds["mode"] = fmt.Sprintf("base value + every deviation of up to %d fields at once (every %d-tuple of field values)", devK(), devK())
 		sec.Exhaustive = false
 		sec.CapHit = "full product too large for this tier"
-		R.NotExhaustive(fmt.Sprintf("roundtrip/%s: every %d-tuple of field values (%d values) instead of the full product (%d values)", s.typ, devK(), n, s.fullSize()))
+		R.NotExhaustive(fmt.Sprintf("%s: every %d-tuple of field values (%d values) instead of the full product (%d values)", secName, devK(), n, s.fullSize()))
 	}
 	var names []string
 	for _, c := range codecs {
